@@ -738,11 +738,19 @@ func (r *runner) probe(t Target, goodIn Input, ref Observed, after string) strin
 	r.s.About("good-request after "+after, map[string]any{"server": t.Name(), "body": goodBody})
 	o := t.Exchange(goodIn)
 	same := reflect.DeepEqual(o.Outcome(), ref.Outcome())
+	if !same && o.Aborted && !o.Panic && !o.Dead {
+		// the transport failed without any sign of trouble on the server (no panic text, no timeout): a keep-alive
+		// connection that the two ends gave up at the same moment is the client's problem — counted as noise, and the
+		// request is made once more; a server that really drops connections fails again (and fails the pings below)
+		r.s.Count("noise:transport-hiccup:"+t.Name(), false, map[string]any{"after": after, "problems": o.Problems}, "noise")
+		o = t.Exchange(goodIn)
+		same = reflect.DeepEqual(o.Outcome(), ref.Outcome())
+	}
 	r.s.Count("good:"+t.Name()+":"+after, same, nil, "good-request-after-garbage")
 	if !same {
 		r.s.Violate(hk.Violation{Fingerprint: "rpc:" + kind + ":good-request-after-garbage-differs",
 			What:  "a well-formed request is answered differently after malformed input than on a fresh server",
-			Input: map[string]any{"server": t.Name(), "after": after, "body": goodBody}, Observed: o.Outcome(), Expected: ref.Outcome()})
+			Input: map[string]any{"server": t.Name(), "after": after, "body": goodBody}, Observed: map[string]any{"outcome": o.Outcome(), "peer_problems": o.Problems}, Expected: ref.Outcome()})
 	}
 	if why := t.Alive(); why != "" {
 		r.s.Violate(hk.Violation{Fingerprint: "rpc:" + kind + ":not-alive-after-batch", What: "ping after a batch of malformed input: " + why,
@@ -1082,15 +1090,27 @@ func (r *runner) runSurvive(only string) {
 			return t2[0], nil
 		})
 		ts[0].Close()
+		t1 := time.Now()
+		lap := func(what string) {
+			if os.Getenv("VERIF_RPC_TIMING") != "" {
+				fmt.Fprintf(os.Stderr, "timing scenario %s %s: %v\n", k, what, time.Since(t1))
+			}
+			t1 = time.Now()
+		}
 		if exp != nil {
 			exp.run(r)
+			lap("expiry")
 		}
 		r.manyInFlight(k)
+		lap("in-flight")
 		r.peerLeavesMidCall(k)
+		lap("peer leaves mid-call")
 		if k == "st-json" || k == "sse" || k == "stdio" {
 			r.malformedResponses(k)
+			lap("malformed responses")
 		}
 		r.handshakeStorm(k)
+		lap("storm")
 	}
 }
 
@@ -1140,8 +1160,31 @@ func childMain(f Focus) {
 }
 
 // inChild runs the survive batch of one server kind in a child process and relays its records.
-func (r *runner) inChild(c *hk.Ctx, kind string) {
-	job, _ := json.Marshal(map[string]any{"kind": kind, "tier": c.Tier, "seed": c.Seed})
+// startChildren starts one child process per job kind, all at once (they run beside whatever the parent does next), and
+// returns the function that waits for them and hands their records on — in the order of `kinds`, whatever the scheduling.
+func (r *runner) startChildren(c *hk.Ctx, kinds []string) (wait func()) {
+	bufs := make([]*bufSink, len(kinds))
+	var wg sync.WaitGroup
+	for i, k := range kinds {
+		bufs[i] = &bufSink{}
+		wg.Add(1)
+		go func(i int, k string) {
+			defer wg.Done()
+			(&runner{s: bufs[i], f: r.f, thorough: r.thorough}).inChild(c.Tier, c.Seed, bufs[i], k)
+		}(i, k)
+	}
+	return func() {
+		wg.Wait()
+		for _, b := range bufs {
+			for _, call := range b.calls {
+				call(r.s)
+			}
+		}
+	}
+}
+
+func (r *runner) inChild(tier string, seed int64, c Sink, kind string) {
+	job, _ := json.Marshal(map[string]any{"kind": kind, "tier": tier, "seed": seed})
 	cmd := exec.Command(os.Args[0])
 	cmd.Env = append(os.Environ(), childEnv+"="+string(job))
 	var stderr bytes.Buffer
@@ -1238,23 +1281,20 @@ func Main(f Focus, rule string) {
 		r := &runner{s: ctxSink{c}, f: f, rng: c.Rng, thorough: c.Thorough()}
 		switch f.Kind {
 		case "wf":
+			wait := r.startChildren(c, FreshKinds)
 			r.runWF()
-			for _, k := range FreshKinds {
-				r.inChild(c, k)
-			}
+			wait()
 		case "alike":
 			r.runAlike()
 		case "survive":
+			// legacy SSE and stdio run in child processes (a panic there kills the process), beside the Streamable runs
+			wait := r.startChildren(c, append([]string{"sse", "stdio"}, FreshKinds...))
 			for _, k := range allKinds {
-				if k == "sse" || k == "stdio" {
-					r.inChild(c, k)
-				} else {
+				if k != "sse" && k != "stdio" {
 					r.runSurvive(k)
 				}
 			}
-			for _, k := range FreshKinds {
-				r.inChild(c, k)
-			}
+			wait()
 		}
 	}})
 }
